@@ -1,5 +1,8 @@
 """C05 — exactly one writer controls a channel region: highest authority wins."""
 import json
+import random
+import sys
+import vlib
 from vlib import cN, cZ, clist, cpair, cbool, coq_print
 
 PID = "C05"
@@ -200,6 +203,180 @@ def tags(case, r):
 def model_dump(case, r):
     t = to_coq(case, r)
     return coq_print(PID, COQ_IMPORTS, "Eval vm_compute in model_dump (%s)." % t)[-8000:]
+
+
+# ------------------------------------------------------------------ extra phases
+CONC_COUNTS = {"quick": 90, "thorough": 3000}
+E2E_COUNTS = {"quick": 120, "thorough": 4000}
+
+
+def gen_conc(rng):
+    """2-3 goroutines, each with its own subject/handles, all ranges [s,MAX) (one region)."""
+    nt = rng.choice([2, 3, 3])
+    threads = []
+    for t in range(nt):
+        ops, live, k = [], None, 0
+        for _ in range(rng.randrange(3, 6)):
+            x = rng.random()
+            if live is None:
+                live = t * 100 + k
+                k += 1
+                ops.append({"op": "open", "h": live, "subj": t + 1, "auth": rng.choice([1, 1, 127, 200, 255]),
+                            "s": rng.choice([0, 10, 20]), "e": MAXTS, "eic": rng.random() < 0.08,
+                            "eou": rng.random() < 0.12, "resfail": False})
+            elif x < 0.35:
+                ops.append({"op": "set", "h": live, "auth": rng.choice([0, 1, 127, 200, 255])})
+            elif x < 0.7:
+                ops.append({"op": "auth", "h": live})
+            else:
+                ops.append({"op": "release", "h": live})
+                live = None
+        threads.append(ops)
+    return {"kind": "conc", "shared": rng.random() < 0.3, "threads": threads}
+
+
+def c_pair2(s):
+    return "None" if s is None else "(Some %s)" % cpair(cN(s[0]), cN(s[1]))
+
+
+def conc_to_coq(case, r):
+    evs = []
+    for (ti, oi, call, ret, st, frm, to, az) in r["hist"]:
+        o = case["threads"][ti][oi]
+        cop = "CAuth %s" % cN(o["h"]) if o["op"] == "auth" else "COp (%s)" % c_op(o)
+        evs.append(cpair(cN(call), cN(ret), cop,
+                         cpair(cN(ST[st]), c_pair2(frm), c_pair2(to), cN(2 if az < 0 else az))))
+    return cpair(cbool(case["shared"]), clist(evs))
+
+
+def gen_e2e(rng):
+    ops, live, nw = [], [], 0
+    for _ in range(rng.randrange(5, 15)):
+        x = rng.random()
+        if not live or (x < 0.3 and nw < 5):
+            ops.append({"op": "open", "w": nw, "subj": nw + 1 if rng.random() < 0.93 else rng.randrange(1, nw + 2),
+                        "auth": rng.choice([0, 1, 127, 127, 254, 255]), "eou": rng.random() < 0.12})
+            live.append(nw)
+            nw += 1
+        elif x < 0.65:
+            ops.append({"op": "write", "w": rng.choice(live) if rng.random() < 0.95 else rng.randrange(0, 6),
+                        "n": rng.randrange(1, 4)})
+        elif x < 0.85:
+            ops.append({"op": "set", "w": rng.choice(live), "auth": rng.choice([0, 1, 127, 254, 255])})
+        else:
+            w = rng.choice(live)
+            ops.append({"op": "close", "w": w})
+            live.remove(w)
+    return {"kind": "e2e", "e2e": {"shared": rng.random() < 0.35, "ops": ops}}
+
+
+EST = {"ok": 0, "unauth": 1, "valid": 2, "skip": 5, "config": 7, "other": 8, "err": 9}
+
+
+def e2e_to_coq(case, r):
+    steps = []
+    for o, x in zip(case["e2e"]["ops"], r["e2e"]["steps"]):
+        if o["op"] == "open":
+            co = "EOpen %s %s %s %s" % (cN(o["w"]), cN(o["subj"]), cN(o["auth"]), cbool(o.get("eou")))
+        elif o["op"] == "write":
+            co = "EWrite %s %s" % (cN(o["w"]), cN(o["n"]))
+        elif o["op"] == "set":
+            co = "ESet %s %s" % (cN(o["w"]), cN(o["auth"]))
+        else:
+            co = "EClose %s" % cN(o["w"])
+        steps.append(cpair(co, cpair(cN(EST.get(x["st"], 8)), cN(x["auth"]), clist([cZ(t) for t in x["ts"]]))))
+    return cpair(cbool(case["e2e"]["shared"]), clist(steps), clist([cZ(t) for t in r["e2e"]["read"]]))
+
+
+def extra(ctx):
+    chk = sys.modules.get("check") or sys.modules["__main__"]
+    # ---- (a) end-to-end through the public cesium API
+    rng = random.Random(ctx.seed * 131 + 5)
+    ecases = [gen_e2e(rng) for _ in range(E2E_COUNTS[ctx.tier])]
+    for i, c in enumerate(ecases):
+        c["id"] = i
+    res = vlib.run_harness(ctx.bin, ecases, timeout=900, procs=8)
+    terms, idx = [], []
+    for i, c in enumerate(ecases):
+        r = res.get(i)
+        if r is None or r.get("panic") or (r.get("e2e") or {}).get("err"):
+            chk.report_case_violation(ctx, c, r, "end-to-end cesium writer case failed in the harness: %s" %
+                                      ((r or {}).get("panic") or ((r or {}).get("e2e") or {}).get("err") or "no result"))
+            continue
+        terms.append(e2e_to_coq(c, r))
+        idx.append(i)
+    M, V, errs = vlib.coq_eval_cases(PID + "e", COQ_IMPORTS, "e2e_case_t", terms, shard=60,
+                                     mism="e2e_mismatches", viol="e2e_violations")
+    for e in errs[:1]:
+        rp = chk.write_replay(ctx, "V2", "e2e correspondence could not be evaluated", {}, None, {"errors": errs[:5]})
+        ctx.violations.append({"kind": "V2", "what": "e2e evaluation errors: " + e[:300], "replay": rp, "found_input": False})
+    for v in V[:2]:
+        chk.report_case_violation(ctx, ecases[idx[v]], res.get(idx[v]),
+                                  "cesium writers: authorized flag / persisted data contradict the control rule")
+    if M and not V:
+        i = idx[M[0]]
+        rp = chk.write_replay(ctx, "V2", "model and implementation disagree (e2e)", ecases[i], res.get(i),
+                              {"correspondence": "corr:C05/e2e#%d" % i, "mismatching_cases": len(M)})
+        ctx.violations.append({"kind": "V2", "what": "correspondence corr:C05/e2e broke on %d cases" % len(M),
+                               "replay": rp, "found_input": False})
+    wr = [x for c, i in zip(ecases, range(len(ecases))) for x in ((res.get(i) or {}).get("e2e") or {}).get("steps", [])
+          if x["auth"] != 2]
+    ctx.extra_cov["e2e_cases"] = len(ecases)
+    ctx.extra_cov["e2e_mismatches"] = len(M)
+    ctx.extra_cov["e2e_monitor_rejections"] = len(V)
+    ctx.extra_cov["e2e_writes_authorized"] = sum(1 for x in wr if x["auth"] == 1)
+    ctx.extra_cov["e2e_writes_unauthorized"] = sum(1 for x in wr if x["auth"] == 0)
+    # ---- (b) concurrent calls under the race detector (validation, not proof)
+    binp, blog = vlib.go_build(MODULE, PKG, BIN, race=True)
+    if binp is None:
+        rp = chk.write_replay(ctx, "V2", "race harness does not build", {}, None, {"build_log": blog[-3000:]})
+        ctx.violations.append({"kind": "V2", "what": "race harness build failed", "replay": rp, "found_input": False})
+        return
+    rng = random.Random(ctx.seed * 977 + 3)
+    ccases = [gen_conc(rng) for _ in range(CONC_COUNTS[ctx.tier])]
+    for i, c in enumerate(ccases):
+        c["id"] = i
+    cres, races = {}, 0
+    for gi, procs in enumerate(["1", "2", "8"]):
+        part = ccases[gi::3]
+        rr = vlib.run_harness(binp, part, timeout=900, procs=4, env={"GOMAXPROCS": procs})
+        se = "\n".join(rr.get("_stderr", []))
+        if "DATA RACE" in se:
+            races += 1
+            chk.report_case_violation(ctx, {"kind": "conc-batch", "GOMAXPROCS": procs, "cases": part[:40]},
+                                      {"race": se[:6000]}, "Go race detector reports a data race in cesium/internal/control")
+        elif rr.get("_errors"):
+            chk.report_case_violation(ctx, {"kind": "conc-batch", "GOMAXPROCS": procs, "cases": part[:40]},
+                                      {"errors": rr["_errors"][:3]}, "concurrent control harness crashed: %s" % rr["_errors"][0][:300])
+        for c in part:
+            if c["id"] in rr:
+                cres[c["id"]] = rr[c["id"]]
+    terms, idx = [], []
+    for i, c in enumerate(ccases):
+        r = cres.get(i)
+        if r is None or r.get("panic"):
+            continue
+        terms.append(conc_to_coq(c, r))
+        idx.append(i)
+    R, _, errs = vlib.coq_eval_cases(PID + "c", COQ_IMPORTS, "conc_case_t", terms, shard=30,
+                                     mism="conc_rejects", viol="conc_rejects")
+    for e in errs[:1]:
+        rp = chk.write_replay(ctx, "V2", "concurrent histories could not be evaluated", {}, None, {"errors": errs[:5]})
+        ctx.violations.append({"kind": "V2", "what": "conc evaluation errors: " + e[:300], "replay": rp, "found_input": False})
+    for v in R[:2]:
+        chk.report_case_violation(ctx, ccases[idx[v]], cres.get(idx[v]),
+                                  "recorded concurrent history has no sequential explanation accepted by the model")
+    overl = 0
+    for i in idx:
+        h = cres[i]["hist"]
+        if any(a[2] < b[3] and b[2] < a[3] and a[0] != b[0] for a in h for b in h):
+            overl += 1
+    ctx.extra_cov["concurrent_histories"] = len(terms)
+    ctx.extra_cov["concurrent_histories_with_overlapping_calls"] = overl
+    ctx.extra_cov["concurrent_histories_rejected"] = len(R)
+    ctx.extra_cov["race_reports"] = races
+    ctx.notes.append("concurrent phase is validation only: histories recorded under -race with GOMAXPROCS 1/2/8 are "
+                     "checked for linearizability against the model inside Coq")
 
 
 READY = False
